@@ -34,9 +34,14 @@ def gen_crval(r, fam):
     return 359.999, r.uniform(-85.0, 85.0)
 
 
-def gen_header(r, kind, crfam, cpfam):
+NAX_SHAPES = [(2048, 4096), (1024, 1024), (4096, 2048), (256, 256), (512, 300), (1024, 4096), (4096, 1024), (300, 512)]
+NAX_NONSQUARE = [(2048, 4096), (4096, 2048), (1024, 4096), (4096, 1024), (300, 512), (512, 300)]
+
+
+def gen_header(r, kind, crfam, cpfam, nax=None):
     """-> dict with lower-case FITS keys, as esutil's tests build it"""
-    nax = r.choice([(2048, 4096), (1024, 1024), (4096, 2048), (256, 256), (512, 300)])
+    if nax is None:
+        nax = r.choice(NAX_SHAPES)
     cd = gen_cd(r)
     scale = math.sqrt(abs(cd[0] * cd[3] - cd[1] * cd[2]))
     crval = gen_crval(r, crfam)
@@ -275,3 +280,177 @@ def fit_rms(h, name, ap, bp, ngrid=24):
         dy = (-h["cd2_1"] * da + h["cd1_1"] * db) / det
         err2 = dx ** 2 + dy ** 2
     return float(np.sqrt(err2.mean()))
+
+
+def _design(a, b, order, constant):
+    import numpy as np
+    cols = []
+    for o in range(0 if constant else 1, order + 1):
+        for j in range(o + 1):
+            cols.append(a ** (o - j) * b ** j)
+    return np.array(cols).T
+
+
+def forward_order(h):
+    """order of the forward polynomial matrix the code holds (a.shape[0] - 1)"""
+    return h["a_order"] if h["ctype1"][5:] == "TAN-SIP" else 3
+
+
+def ref_fit_rms(h, nfit=40, ncheck=27):
+    """"fitted-polynomial accuracy", independent of the code's fit: rms residual (pixels, on a separate check grid
+    over the WHOLE image [1,NAXIS1] x [1,NAXIS2]) of a least-squares inverse polynomial of the order the code uses
+    (forward order + 1; TPV: intermediate -> CD-rotated offsets, with constant; SIP: correction as a function of
+    the undistorted pixel offsets, without constant), fitted here with numpy.linalg.lstsq on a grid over the whole
+    image.  Only a yardstick for the tolerance of the find=False round trip."""
+    import numpy as np
+    order = forward_order(h) + 1
+    sip = h["ctype1"][5:] == "TAN-SIP"
+    det = h["cd1_1"] * h["cd2_2"] - h["cd1_2"] * h["cd2_1"]
+
+    def grid(n, off):
+        xs = np.linspace(1.0, float(h["naxis1"]), n)
+        ys = np.linspace(1.0, float(h["naxis2"]), n)
+        X, Y = np.meshgrid(xs, ys)
+        return X.ravel(), Y.ravel()
+
+    def samples(n):
+        X, Y = grid(n, 0)
+        u, v = X - h["crpix1"], Y - h["crpix2"]
+        if sip:
+            oa, ob = h["a_order"], h["b_order"]
+            f = sum(h.get("a_%d_%d" % (p, q), 0.0) * u ** p * v ** q for p in range(oa + 1) for q in range(oa + 1 - p))
+            gg = sum(h.get("b_%d_%d" % (p, q), 0.0) * u ** p * v ** q for p in range(ob + 1) for q in range(ob + 1 - p))
+            U, V = u + f, v + gg
+            return U, V, u - U, v - V                 # independent variables, targets (pixels)
+        a = h["cd1_1"] * u + h["cd1_2"] * v
+        b = h["cd2_1"] * u + h["cd2_2"] * v
+        xi, eta = ref_intermediate(h, X, Y)
+        return xi, eta, a, b                          # targets in degrees
+
+    p1, p2, t1, t2 = samples(nfit)
+    if sip:
+        c1 = c2 = 0.0                                 # no constant term: the space is not translation invariant
+    else:
+        c1, c2 = float(p1.mean()), float(p2.mean())
+    sc = float(max(np.abs(p1 - c1).max(), np.abs(p2 - c2).max())) or 1.0
+    A = _design((p1 - c1) / sc, (p2 - c2) / sc, order, not sip)
+    k1 = np.linalg.lstsq(A, t1, rcond=None)[0]
+    k2 = np.linalg.lstsq(A, t2, rcond=None)[0]
+    p1, p2, t1, t2 = samples(ncheck)
+    A = _design((p1 - c1) / sc, (p2 - c2) / sc, order, not sip)
+    d1, d2 = A.dot(k1) - t1, A.dot(k2) - t2
+    if not sip:
+        d1, d2 = (h["cd2_2"] * d1 - h["cd1_2"] * d2) / det, (-h["cd2_1"] * d1 + h["cd1_1"] * d2) / det
+    return float(np.sqrt((d1 ** 2 + d2 ** 2).mean()))
+
+
+def gen_seam_meridian(r):
+    """header whose reference point is on the RA = 0 seam written as 0.0 or 360.0, exactly axis-aligned CD matrix
+    (all four sign combinations), reference pixel inside; pixels exactly on the column and the row through the
+    reference pixel (the column is the meridian RA = CRVAL1), spread over the whole image"""
+    kind = r.choice(["tan", "tan", "sip", "tpv"])
+    h = gen_header(r, kind, "seam0", "inside")
+    h["crval1"] = r.choice([0.0, 360.0])
+    scale = math.exp(r.uniform(math.log(0.05), math.log(2.0))) / 3600.0
+    h["cd1_1"], h["cd1_2"], h["cd2_1"], h["cd2_2"] = r.choice([-1.0, 1.0]) * scale, 0.0, 0.0, r.choice([-1.0, 1.0]) * scale
+    h["crpix1"] = float(r.randrange(2, int(h["naxis1"]) - 1)) + r.choice([0.0, 0.5])
+    h["crpix2"] = float(r.randrange(2, int(h["naxis2"]) - 1)) + r.choice([0.0, 0.5])
+    pts = [[h["crpix1"], h["crpix2"]]]
+    for d in (1.0, -1.0, 7.5, -33.0, 250.0, -250.0):
+        if in_image(h, h["crpix1"], h["crpix2"] + d):
+            pts.append([h["crpix1"], h["crpix2"] + d])
+        if in_image(h, h["crpix1"] + d, h["crpix2"]):
+            pts.append([h["crpix1"] + d, h["crpix2"]])
+    pts.append([h["crpix1"], 1.0])
+    pts.append([h["crpix1"], float(h["naxis2"])])
+    return h, "%s/seam-meridian%s/inside" % (kind, "360" if h["crval1"] else "0"), pts
+
+
+# ----------------------------------------------------------------------------
+# reference inverse fit: the documented method (normal equations of a full 2-d polynomial one order above the
+# forward one, on a (2 (order + 2) 5)^2 grid), re-implemented here over the WHOLE image rectangle
+# ----------------------------------------------------------------------------
+
+def _code_grid(n, lo, hi):
+    import numpy as np
+    rng = np.arange(n, dtype="f8")
+    a = (hi - lo) / (rng.max() - rng.min())
+    b = (rng.max() * lo - rng.min() * hi) / (rng.max() - rng.min())
+    return rng * a + b
+
+
+def _xy_grid(n, xr, yr):
+    import numpy as np
+    ones = np.ones(n, dtype="f8")
+    x = np.outer(_code_grid(n, xr[0], xr[1]), ones).flatten("F")
+    y = np.outer(ones, _code_grid(n, yr[0], yr[1])).flatten("F")
+    return x, y
+
+
+def _normal_fit(p1, p2, t1, t2, order, constant):
+    import numpy as np
+    rows = [np.ones(p1.size)] if constant else []
+    for o in range(1, order + 1):
+        for j in range(o + 1):
+            rows.append(p1 ** (o - j) * p2 ** j)
+    A = np.array(rows)
+    ata = np.inner(A, A)
+    k1 = np.linalg.solve(ata, np.inner(A, t1))
+    k2 = np.linalg.solve(ata, np.inner(A, t2))
+    m1 = [[0.0] * (order + 1) for _ in range(order + 1)]
+    m2 = [[0.0] * (order + 1) for _ in range(order + 1)]
+    kk = 0
+    for o in range(0 if constant else 1, order + 1):
+        for j in range(o + 1):
+            m1[o - j][j] = float(k1[kk])
+            m2[o - j][j] = float(k2[kk])
+            kk += 1
+    return m1, m2
+
+
+def pv_matrices(h):
+    """forward coefficient matrices a[i][j] (x^i y^j) of a TPV header, PVi_1 defaulting to 1"""
+    loc1 = {0: (0, 0), 1: (1, 0), 2: (0, 1), 4: (2, 0), 5: (1, 1), 6: (0, 2), 7: (3, 0), 8: (2, 1), 9: (1, 2), 10: (0, 3)}
+    a = [[0.0] * 4 for _ in range(4)]
+    b = [[0.0] * 4 for _ in range(4)]
+    for k, (i, j) in loc1.items():
+        a[i][j] = float(h.get("pv1_%d" % k, 1.0 if k == 1 else 0.0))
+        b[j][i] = float(h.get("pv2_%d" % k, 1.0 if k == 1 else 0.0))
+    return a, b
+
+
+def reference_inverse(h, fac=5, w=None):
+    """-> (name, ap, bp): inverse coefficient matrices by the documented method over the image rectangle.
+    SIP: the undistorted pixel positions of the grid are, as documented, obtained through the sky (image2sky
+    then sky2image(distort=False, find=False) of the object w, both certified separately); without w they are
+    computed directly from the header."""
+    nx, ny = float(h["naxis1"]), float(h["naxis2"])
+    if h["ctype1"][5:] == "TAN-SIP":
+        oa, ob = h["a_order"], h["b_order"]
+        ng = 2 * (oa + 2) * fac
+        x, y = _xy_grid(ng, (1.0, nx), (1.0, ny))
+        u, v = x - h["crpix1"], y - h["crpix2"]
+        if w is not None:
+            lon, lat = w.image2sky(x, y)
+            xb, yb = w.sky2image(lon, lat, distort=False, find=False)
+            U, V = xb - h["crpix1"], yb - h["crpix2"]
+            ap, bp = _normal_fit(U, V, x - xb, y - yb, oa + 1, False)
+            return "sip", ap, bp
+        f = sum(h.get("a_%d_%d" % (p, q), 0.0) * u ** p * v ** q for p in range(oa + 1) for q in range(oa + 1 - p))
+        gg = sum(h.get("b_%d_%d" % (p, q), 0.0) * u ** p * v ** q for p in range(ob + 1) for q in range(ob + 1 - p))
+        U, V = u + f, v + gg
+        ap, bp = _normal_fit(U, V, u - U, v - V, oa + 1, False)
+        return "sip", ap, bp
+    ng = 2 * (3 + 2) * fac
+    xd, yd = _xy_grid(ng, (1.0 - h["crpix1"], nx - h["crpix1"]), (1.0 - h["crpix2"], ny - h["crpix2"]))
+    u = h["cd1_1"] * xd + h["cd1_2"] * yd
+    v = h["cd2_1"] * xd + h["cd2_2"] * yd
+    a, b = pv_matrices(h)
+    up, vp = poly_eval(a, u, v), poly_eval(b, u, v)
+    ap, bp = _normal_fit(up, vp, u, v, 4, True)
+    return "scamp", ap, bp
+
+
+def ref_fit_yardstick(h, w=None):
+    name, ap, bp = reference_inverse(h, w=w)
+    return fit_rms(h, name, ap, bp)
